@@ -411,7 +411,11 @@ def queries(seed, codes=None, npop=3):
     fam = codes or [c for c in FAMILY["fetch"] if all((not ch.isdigit()) or int(ch) in comps for ch in c)]
     ops = []
     ctx = Ctx(r, comps)
-    chosen = r.sample(fam, min(len(fam), 6))
+    # three codes by rotation (consecutive seeds walk through the whole family, so that one quick run registers every
+    # family query at least once), three at random
+    rot = [fam[(seed * 3 + j) % len(fam)] for j in range(3)]
+    chosen = r.sample(fam, min(len(fam), 3)) + rot
+    r.shuffle(chosen)
     early = chosen[:2]
     for i, q in enumerate(early):
         ops.append(f"addh name=q{i} prio=m params=R:G0:i;F:{q};Snd:G1 body=iter:1,bump:1,iter:1,get:1:{ctx.ent(8)},getmany:1:#0+#1+#{r.randrange(4)}")
